@@ -2,14 +2,14 @@
 EXTENDS ExcelUI
 R3(file, frac, u1, u2, u3, beads) == [file |-> file, frac |-> frac, units |-> <<u1, u2, u3>>, beads |-> beads]
 R(file, frac, u1, u2, beads) == R3(file, frac, u1, u2, "empty", beads)
-Healthy == {R3("ok-int", "in", "rfi", "mef", "rfi", "ok"), R3("ok-float", "in", "empty", "empty", "au", "ok")} \cup {R(f, "in", u[1], u[2], "ok") : f \in {"ok-int", "ok-float"},
+Healthy == {R("ok-int", "in", "rfi", "channel", "nomef"), R3("ok-int", "in", "rfi", "mef", "rfi", "ok"), R3("ok-float", "in", "empty", "empty", "au", "ok")} \cup {R(f, "in", u[1], u[2], "ok") : f \in {"ok-int", "ok-float"},
               u \in {<<"empty", "empty">>, <<"channel", "rfi">>, <<"au", "mef">>, <<"mef", "mef">>, <<"rfi", "empty">>, <<"mef", "empty">>}}
 Faulty == { R("missing", "in", "rfi", "mef", "ok"), R("short", "in", "rfi", "mef", "ok"),
             R("ok-int", "above", "rfi", "mef", "ok"), R("ok-int", "below", "rfi", "mef", "ok"),
             R("ok-int", "in", "unknown", "mef", "ok"), R("ok-int", "in", "rfi", "unknown", "ok"),
             R("ok-int", "in", "rfi", "mef", "failed"), R("ok-int", "in", "rfi", "mef", "nocurve"),
             R("ok-int", "in", "rfi", "mef", "other-inst"), R("ok-int", "in", "rfi", "mef", "other-amp"),
-            R("ok-int", "in", "rfi", "mef", "other-volt"),
+            R("ok-int", "in", "rfi", "mef", "other-volt"), R("ok-int", "in", "rfi", "mef", "nomef"), R("ok-float", "in", "mef", "empty", "nomef"),
             R("short", "in", "unknown", "mef", "failed"), R("ok-float", "in", "unknown", "mef", "failed"),
             R("ok-int", "above", "rfi", "mef", "failed"), R("ok-float", "below", "mef", "unknown", "ok"),
             R("ok-int", "in", "rfi", "empty", "failed"),
